@@ -60,7 +60,9 @@ interpolated into rich markup). The model is a model of the repaired tree.
   keeps the invariant. Instances: `C09_compile_never_crashes` (`q` = non-blank, by `parseLines_noBlank`: **compiling any text,
   with any options and file system, never crashes**) and `C02_compile_output_legal` (`q` = not an IGNORE line, `P` = `legalLine`:
   **a program without IGNORE emits only legal lines**, with `C02_every_emission_legal` covering all 28 simple classes and the
-  unknown-command pass-through in every delivery form).
+  unknown-command pass-through in every delivery form), `C02_compile_no_duckling_keyword` (`q` = a known command that is not
+  IGNORE, `P` = `plainLine`: no DucklingScript-only keyword or `$` name in the output), and — with a *context invariant* that every
+  child stack inherits (the options) — `C15_comments_off_no_rem` and `C15_flipper_off_no_flipper_line`.
 * Further unbounded theorems beyond the per-site laws: `C03_roundtrip` (parse ∘ print = id for every well-formed tree, any unit,
   any blank lines), `C09_evaluator_never_crashes` (scanner invariant: every number token is `[-]digits[.digits]`), `C04_build`
   (the tree builder equals the precedence-climbing reference for any token sequence), `C06_repeat_exact`, `C17_history`.
